@@ -39,6 +39,8 @@ def run(ctx):
         r3.floor("printable", n)
     r4 = ctx.rule("R-HASH-TOKENS", "the printer's `#` tokens are dispatched by parse_token to the matching token kind")
     roundtrip.hash_tokens(r4, lexpr)
+    from . import c07
+    c07.writeall(ctx, lexpr, db.crate("serde_lexpr"))
     null_text(ctx, lexpr)
     nil_as_false(ctx, lexpr)
     rescan(ctx, lexpr)
